@@ -40,7 +40,20 @@ def main():
     if out.strip():
         print('worktree not clean:\n' + out)
         return 2
-    rc0, out0 = sh(['/venv/bin/python', '-W', 'ignore', demo], timeout=600)
+    # --checks-only: demo / pytest confirmation is taken from the last full run of this tool (eval.txt next to the case)
+    prior = None
+    if '--checks-only' in sys.argv:
+        try:
+            t = open(os.path.join(case, 'eval.txt')).read()
+            prior = json.loads(re.search(r'\{.*?\n\}', t, re.S).group(0))
+            if not prior.get('confirmed'):
+                prior = None
+        except Exception:
+            prior = None
+    if prior is not None:
+        rc0 = prior.get('demo_clean_exit')
+    else:
+        rc0, out0 = sh(['/venv/bin/python', '-W', 'ignore', demo], timeout=600)
     report['demo_clean_exit'] = rc0
     rc, out = sh(['git', '-C', wt, 'apply', '--whitespace=nowarn', patch])
     if rc != 0:
@@ -59,13 +72,19 @@ def main():
                     ok_compile = False
                     print('does not compile: %s %s' % (f, e))
         report['compiles'] = ok_compile
-        rc1, out1 = sh(['/venv/bin/python', '-W', 'ignore', demo], timeout=600)
-        report['demo_patched_exit'] = rc1
-        report['demo_patched_tail'] = out1.strip().splitlines()[-6:]
-        rct, outt = sh(['/venv/bin/python', '-m', 'pytest', '-q', '-p', 'no:cacheprovider', '--timeout=900',
-                        '--continue-on-collection-errors'], cwd=wt, timeout=1800)
-        m = re.search(r'(\d+) passed', outt)
-        report['pytest_passed'] = int(m.group(1)) if m else None
+        if prior is not None:
+            report['demo_patched_exit'] = prior.get('demo_patched_exit')
+            report['demo_patched_tail'] = prior.get('demo_patched_tail')
+            report['pytest_passed'] = prior.get('pytest_passed')
+            report['confirmation_from_earlier_run'] = True
+        else:
+            rc1, out1 = sh(['/venv/bin/python', '-W', 'ignore', demo], timeout=600)
+            report['demo_patched_exit'] = rc1
+            report['demo_patched_tail'] = out1.strip().splitlines()[-6:]
+            rct, outt = sh(['/venv/bin/python', '-m', 'pytest', '-q', '-p', 'no:cacheprovider', '--timeout=900',
+                            '--continue-on-collection-errors'], cwd=wt, timeout=1800)
+            m = re.search(r'(\d+) passed', outt)
+            report['pytest_passed'] = int(m.group(1)) if m else None
         verdicts = {}
         env = dict(os.environ, VERIF_REPO=wt, VERIF_VARIANT='1')
         for pid in checks:
